@@ -28,6 +28,13 @@ def histories(rng, tier):
                      ("seqfreq", shots, m1, m2), ("seqfreq", shots, m2, m1),
                      ("samplestats", 100000, 60 if tier == "quick" else 400)]
             hs.append((rng.randrange(1 << 30), acts))
+    # masks with gaps (measured qubits on both sides of an unmeasured one), in both orders, every run: the joint
+    # distribution of two successive measurements and the probabilities reported in between
+    for n, pairs in ((3, [(0b101, 0b010), (0b010, 0b101)]), (4, [(0b1001, 0b0110), (0b1010, 0b0101), (0b1011, 0b0100), (0b0101, 0b1000)])):
+        for m1, m2 in pairs:
+            acts = [("raw", n, gen.random_state(rng, n)), ("dump",), ("probs",), ("seqfreq", shots, m1, m2), ("seqfreq", shots, m2, m1),
+                    ("measure", m1), ("dump",), ("probs",), ("freq", shots // 2, m2)]
+            hs.append((rng.randrange(1 << 30), acts))
     # "independent of ... the threading model": every admissible worker count (those that do not divide the
     # buffer included) on 4-5 qubit registers with weight on the highest basis states
     for k in regcheck.thread_counts():
